@@ -167,3 +167,70 @@ Proof.
   repeat split; auto; lia.
 Qed.
 Print Assumptions C09_quiescent_state_exists.
+
+(* ---------------------------------------------------------------------------------- *)
+(* fork(): parent and child both keep running their loops (child after uv_loop_fork). *)
+(* [fork_sys true] is the code as it is: uv__async_fork clears pending/busy of the    *)
+(* handles on the loop's list and gives the child a NEW wake-up channel.  The fork     *)
+(* happens in a reachable parent state with the loop thread between two API calls,     *)
+(* no sender being inside uv_async_send on an already unlinked handle.  Schedules      *)
+(* interleave atomic steps of both processes arbitrarily.                              *)
+(* ---------------------------------------------------------------------------------- *)
+
+(* Sends in the child after uv_loop_fork reach the child's loop: in every state of the
+   two-process system in which the child is quiescent, every open handle of the child has
+   seen all the child's publications; the child never runs a callback without a send of
+   its own (its counters restart at fork); the same holds for the parent. *)
+Theorem C09_fork_no_lost_wakeup :
+  forall n e0 lscript beh scripts, 0 <= e0 ->
+  forall s, reachable (init n e0 lscript beh scripts) s ->
+  l_pc (lp s) = LTop -> (forall k, ~ In k (lst s) -> busy (hs s k) = 0) ->
+  forall clscript cbeh cscripts sched y,
+  sys_run (fork_sys true s clscript cbeh cscripts) sched = Some y ->
+  (quiescent (chi y) = true -> forall h, hst (hs (chi y) h) = Open ->
+     seen (hs (chi y) h) = published (hs (chi y) h)) /\
+  (forall h, cb_count (hs (chi y) h) <= sends_begun (hs (chi y) h)) /\
+  (quiescent (par y) = true -> forall h, hst (hs (par y) h) = Open ->
+     seen (hs (par y) h) = published (hs (par y) h)) /\
+  (forall h, cb_count (hs (par y) h) <= sends_begun (hs (par y) h)) /\
+  efd (chi y) = ctr y (ch_chi y) /\ efd (par y) = ctr y (ch_par y).
+Proof.
+  intros n e0 ls beh sc He s Hr Hpc Hb cls cbeh csc sched y Hrun.
+  destruct (fork_both_inv s cls cbeh csc sched y (reachable_inv _ _ _ _ _ _ He Hr) Hpc Hb Hrun)
+    as (Ip & Ic & Hp & Hc & _).
+  split; [exact (no_lost_wakeup (chi y) Ic)|].
+  split; [exact (cb_only_after_send (chi y) Ic)|].
+  split; [exact (no_lost_wakeup (par y) Ip)|].
+  split; [exact (cb_only_after_send (par y) Ip)|]. auto.
+Qed.
+Print Assumptions C09_fork_no_lost_wakeup.
+
+(* The child's wake-ups cannot be consumed by the parent (and vice versa): when the two
+   channels differ, a step of one process leaves the other process's state and the
+   counter of the other process's channel unchanged, and is a step of the single-process
+   semantics on the stepping process's own state. *)
+Theorem C09_fork_channels_independent :
+  forall y child tid y',
+  efd (par y) = ctr y (ch_par y) -> efd (chi y) = ctr y (ch_chi y) -> ch_par y <> ch_chi y ->
+  sys_step y child tid = Some y' ->
+  if child
+  then step (chi y) tid = Some (chi y') /\ par y' = par y /\ ctr y' (ch_par y) = ctr y (ch_par y)
+  else step (par y) tid = Some (par y') /\ chi y' = chi y /\ ctr y' (ch_chi y) = ctr y (ch_chi y).
+Proof.
+  intros y c t y' H1 H2 H3 Hst.
+  exact (proj2 (sys_step_split y c t y' (conj H1 (conj H2 H3)) Hst)).
+Qed.
+Print Assumptions C09_fork_channels_independent.
+
+(* Sanity: if the child kept the parent's eventfd (no fresh channel), the parent's loop
+   consumes the child's wake-up: the child ends blocked with a publication unseen. *)
+Theorem C09_fork_shared_channel_refuted :
+  exists s clscript cbeh cscripts sched y,
+    sys_run (fork_sys false s clscript cbeh cscripts) sched = Some y /\
+    quiescent (with_efd (chi y) (ctr y (ch_chi y))) = true /\
+    hst (hs (chi y) 0%nat) = Open /\ seen (hs (chi y) 0%nat) < published (hs (chi y) 0%nat).
+Proof.
+  destruct shared_channel_loses_wakeup as (y & Hr & Hq & Ho & Hs & Hp).
+  exists f_par, [OpRun true], nobeh, [[0%nat]], f_sched, y. repeat split; auto. lia.
+Qed.
+Print Assumptions C09_fork_shared_channel_refuted.
